@@ -2,12 +2,13 @@
 from __future__ import annotations
 
 import ast
+import base64
 
 from sa.astx import call_attr, call_name, dotted, src
 from sa.domains import fmt_set, replace_chain
 from sa.selftest import Mutant, Silent
 from sa.source import AnalysisError
-from sa.props._lib_i import sect, NotPure, Raised, eval_block, flat_bytes, module_env, peval
+from sa.props._lib_i import sect, COMPAT, BlockRaised, NotPure, Raised, eval_block, flat_bytes, interp, module_env, peval
 
 PROPERTY = "C41"
 SMTP = "mail/smtp.py"
@@ -236,22 +237,37 @@ def _check_utf7_encoder(ctx):
               f"characters emitted as themselves differ from RFC 3501 5.1.3 (printable US-ASCII except '&') on {fmt_set(direct ^ want_direct)}"
               + ("; a literal '&' is read back as a shift into base64" if ord("&") in direct else ""), detail=f"{len(cps)} code points evaluated")
     ctx.check(amp == {ord("&")}, "utf7/ampersand", q + " | '&' -> '&-'", f"the set of characters encoded as '&-' is {fmt_set(amp)}, must be exactly '&'")
-    # F41b: the helper slices the stdlib utf-7 output assuming a '+...-' wrapper
+    # the base64 helper, evaluated (the stdlib utf-7 / base64 codecs are delegated to CPython, the repository code is interpreted):
+    # for every run of routed characters it must produce RFC 3501 modified base64 of the run's UTF-16BE form.  F41b: characters the
+    # stdlib utf-7 encoder emits directly come back without the '+' / '-' wrapper the helper removes.
     hf = ctx.func(IMAP, helper)
     hq = f"twisted.mail.imap4.{helper}"
-    sliced = [x for x in ast.walk(hf) if isinstance(x, ast.Subscript) and isinstance(x.slice, ast.Slice)]
-    uses_utf7 = [x for x in ast.walk(hf) if isinstance(x, ast.Call) and call_attr(x) == "encode" and x.args and isinstance(x.args[0], ast.Constant)
-                 and str(x.args[0].value).lower().replace("_", "-") in ("utf-7", "utf7")]
-    if uses_utf7:
-        ctx.need(sliced, f"slice removing the '+' / '-' wrapper in {hq}")
-        clash = routed & UTF7_DIRECT
-        ctx.check(not clash, "utf7/routed-disjoint-from-codec-direct", f"{hq} | <wrapper slice of s.encode('utf-7')>",
-                  f"characters {fmt_set(clash)} are routed to {helper}, but the stdlib utf-7 encoder emits them directly (no '+'/'-' wrapper), so the "
-                  "[1:-1] slice cuts payload instead of delimiters: the character is lost or turned into '&'")
-        # and every character the codec would encode must be among the routed ones or never reach it (informational count)
-        ctx.ok("utf7/routed-set", hq, f"routed: {fmt_set(routed & set(range(0x80)))} + non-ASCII")
-    else:
-        ctx.ok("utf7/routed-disjoint-from-codec-direct", f"{hq} | <wrapper slice of s.encode('utf-7')>", "helper does not slice stdlib utf-7 output")
+    helper_fn = interp(hf, COMPAT, {})
+
+    def ref_mb64(t):
+        return base64.b64encode(t.encode("utf-16-be")).rstrip(b"=").replace(b"/", b",")
+    runs = [chr(cp) for cp in sorted(routed)]
+    runs += ["\uf800", "\ufb01", "\ufbff", "\ufb01le", "\ufffd", "\u00e9\u00e9\u00be", "\u00e9\u00e9\u00ff", "\U0001f600", "\x00\x01", "\u00e9\x01", "\u20ac\u00e9",
+             "\u00e9\n", "\t\u00e9", "\r\n", "\ufb01\ufb01\u00be"]
+    bad_direct = bad_payload = None
+    for t in runs:
+        try:
+            got = helper_fn(t)
+        except (Raised, BlockRaised) as ex:
+            got = f"<raises {ex}>"
+        if got == ref_mb64(t):
+            continue
+        if any(ord(ch) in UTF7_DIRECT for ch in t):
+            bad_direct = bad_direct or (t, got)
+        else:
+            bad_payload = bad_payload or (t, got)
+    ctx.check(bad_direct is None, "utf7/routed-disjoint-from-codec-direct", f"{hq} | <routed characters the utf-7 codec emits directly>",
+              bad_direct and f"{helper}({bad_direct[0]!r}) gives {bad_direct[1]!r} instead of {ref_mb64(bad_direct[0])!r}: the character is routed to the base64 helper, but "
+              "the stdlib utf-7 encoder emits it directly (no '+' / '-' wrapper), so removing the wrapper cuts payload: the character is lost or turned into '&'",
+              detail=f"routed ASCII: {fmt_set(routed & set(range(0x80)))}")
+    ctx.check(bad_payload is None, "utf7/helper-payload", f"{hq} | modified base64 of a routed run",
+              bad_payload and f"{helper}({bad_payload[0]!r}) gives {bad_payload[1]!r}; RFC 3501 modified base64 of the run is {ref_mb64(bad_payload[0])!r} "
+              "('+' and ',' are base64 digits: they may start or end the payload and must survive the removal of the utf-7 wrapper)", detail=f"{len(runs)} runs")
     # flush discipline: with pending input, a direct character / '&' first emits '&' + helper(pending) + '-' and clears pending
     pend = ["\u00e9", "\u20ac"]
     for cp, tail in ((ord("a"), b"a"), (ord("&"), b"&-")):
@@ -395,6 +411,8 @@ MUTANTS = [
     Mutant("utf7-unclosed-final-shift", IMAP, '    if _in:\n        r.extend(b"&" + modified_base64("".join(_in)) + b"-")\n', '    if _in:\n        r.extend(b"&" + modified_base64("".join(_in)))\n',
            expect_rule="utf7/flush-at-end"),
     Mutant("utf7-unbase64-not-inverse", IMAP, '    s_utf7 = b"+" + s.replace(b",", b"/") + b"-"\n', '    s_utf7 = b"+" + s.replace(b".", b"/") + b"-"\n', expect_rule="utf7/base64-alphabet"),
+    Mutant("utf7-wrapper-removed-by-strip", IMAP, "    return s_utf7[1:-1].replace(b\"/\", b\",\")\n", "    return s_utf7.strip(b\"+-\").replace(b\"/\", b\",\")\n", expect_rule="utf7/helper-payload"),
+    Mutant("utf7-wrapper-slash-not-substituted", IMAP, "    return s_utf7[1:-1].replace(b\"/\", b\",\")\n", "    return s_utf7[1:-1]\n", expect_rule="utf7/"),
     Mutant("utf7-decoder-ampdash-miscount", IMAP, "            if len(decode) == 1:\n", "            if len(decode) <= 2:\n", expect_rule="utf7/decoder-transitions"),
     Mutant("utf7-decoder-shift-char-kept", IMAP, '                r.append(modified_unbase64(b"".join(decode[1:])))\n            decode = []\n',
            '                r.append(modified_unbase64(b"".join(decode)))\n            decode = []\n', expect_rule="utf7/decoder-transitions"),
@@ -406,5 +424,7 @@ SILENT = [
     Silent("utf7-valid-chars-comprehension", IMAP, '    valid_chars = set(map(chr, range(0x20, 0x7F))) - {"&"}\n', '    valid_chars = {chr(x) for x in range(32, 127) if x != 0x26}\n'),
     Silent("F41b-repaired-base64-helper", IMAP, '    s_utf7 = s.encode("utf-7")\n    return s_utf7[1:-1].replace(b"/", b",")\n',
            '    import binascii\n    return binascii.b2a_base64(s.encode("utf-16-be")).rstrip(b"\\n=").replace(b"/", b",")\n'),
+    Silent("utf7-wrapper-removeprefix-removesuffix", IMAP, "    return s_utf7[1:-1].replace(b\"/\", b\",\")\n",
+           "    return s_utf7.removeprefix(b\"+\").removesuffix(b\"-\").replace(b\"/\", b\",\")\n"),
     Silent("utf7-decoder-reordered-test", IMAP, '        if c == b"&" and not decode:\n', '        if not decode and c == b"&":\n'),
 ]
